@@ -551,11 +551,12 @@ def call_type(it, t, args, kw):
         if args:
             src = args[0]
             if isinstance(src, dict):
-                d.update(src)
+                for k, v in list(src.items()):
+                    ops.setitem(it, d, k, v)
             else:
                 for kv in it.iterate(src):
                     k, v = it.iterate(kv)
-                    d[it.dict_key(k)] = v
+                    ops.setitem(it, d, k, v)
         d.update(kw)
         return d
     if h is object:
@@ -767,8 +768,15 @@ def call_host_method(it, hm, args, kw):
     # ---- dict
     if isinstance(recv, dict):
         if name in _DICT_OK:
-            if name in ('get', 'pop', 'setdefault') and args and \
-                    is_symbolic(args[0]):
+            if name == 'get' and args and (is_symbolic(args[0]) or any(
+                    is_symbolic(x) for x in recv)):
+                x = ops.dict_find(it, recv, args[0])
+                if x is ops._MISSING:
+                    return args[1] if len(args) > 1 else kw.get('default')
+                return recv[x]
+            if name in ('get', 'pop', 'setdefault') and args and (
+                    is_symbolic(args[0]) or any(is_symbolic(x)
+                                                for x in recv)):
                 raise Unsupported('dict.%s with symbolic key' % name)
             if name in ('pop', 'update', 'setdefault', 'clear'):
                 it.heap_writes += 1
@@ -776,11 +784,12 @@ def call_host_method(it, hm, args, kw):
                 if args:
                     src = args[0]
                     if isinstance(src, dict):
-                        recv.update(src)
+                        for k, v in list(src.items()):
+                            ops.setitem(it, recv, k, v)
                     else:
                         for kv in it.iterate(src):
                             k, v = it.iterate(kv)
-                            recv[it.dict_key(k)] = v
+                            ops.setitem(it, recv, k, v)
                 recv.update(kw)
                 return None
             r = it.host_call(getattr(recv, name), *args, **kw)
